@@ -276,15 +276,15 @@ theorem map_ranges_match_review :
 
 /-- Each reviewed verdict agrees with what the translator measured (a site judged "sorted here" is
 seen by the translator to reach a sort before any output call), and no site is left to a run-time
-hunt and every reviewed site is an `append` whose slice is dealt with afterwards, or a `delete`
-whose decision was reviewed as independent of earlier iterations: in particular no output is
+hunt and every reviewed site is an `append` whose slice is dealt with afterwards, or a `delete` /
+`pick` (an outer variable overwritten from the iteration) reviewed as independent of the order: in particular no output is
 written, no string concatenated, no floating-point sum accumulated in map order, and
 RemoveRedundantEdges — whose decisions DO depend on earlier removals — is not among the map walks. -/
 theorem map_ranges_reviewed :
     PV.Spec.MapRangesExpected.reviewed.all Reviewed.consistent = true ∧
     PV.Spec.MapRangesExpected.huntedSites = [] ∧
     PV.Spec.MapRangesExpected.reviewed.all (fun r => decide (r.site.kind = SinkKind.append) ||
-      (decide (r.site.kind = SinkKind.delete) &&
+      ((decide (r.site.kind = SinkKind.delete) || decide (r.site.kind = SinkKind.pick)) &&
         (match r.verdict with | .orderIrrelevant _ => true | _ => false))) = true ∧
     PV.Spec.MapRangesExpected.sites.all (fun s => s.fn != "Graph.RemoveRedundantEdges") = true := by decide
 
